@@ -23,7 +23,7 @@ instance tree = {field: int | tree | [tree]}  (absent optional fields are missin
 import itertools
 import json
 
-from typedpy import Structure, Integer, Array, Set, Serializer, Deserializer, mappers, serialize, deserialize_structure
+from typedpy import Structure, Integer, Array, Set, Map, String, Serializer, Deserializer, mappers, serialize, deserialize_structure
 from typedpy.structures import StructMeta
 from typedpy.serialization.mappers import DoNotSerialize
 import sys as _sys
@@ -131,7 +131,7 @@ def gen_attr(rng, fields):
     return {"list": [gen_mapper(rng, fields) for _ in range(rng.randint(1, 3))]}
 
 
-def gen_class(rng, depth, max_levels, nest_budget):
+def gen_class(rng, depth, max_levels, nest_budget, kinds=("one", "one", "arr", "set")):
     _counter[0] += 1
     name = f"K{_counter[0]}"
     n_levels = rng.randint(1, max_levels)
@@ -148,10 +148,10 @@ def gen_class(rng, depth, max_levels, nest_budget):
             nm = pool.pop()
             kind = "int"
             if depth < nest_budget and rng.random() < (0.4 if depth == 0 else 0.45):
-                kind = rng.choice(["one", "one", "arr", "set"])
+                kind = rng.choice(list(kinds))
             fd = {"n": nm, "opt": rng.random() < 0.45, "kind": kind}
             if kind != "int":
-                fd["cls"] = gen_class(rng, depth + 1, 2, nest_budget)
+                fd["cls"] = gen_class(rng, depth + 1, 2, nest_budget, kinds)
             fields.append(fd)
         sofar = sofar + fields
         levels.append({"mapper": gen_attr(rng, sofar) if sofar else None, "fields": fields})
@@ -169,6 +169,9 @@ def gen_instance(rng, cd, p_absent=0.45):
             out[f["n"]] = rng.choice([0, 1, 2, 3, 5, 7, -1, 10, 42])
         elif f["kind"] == "one":
             out[f["n"]] = gen_instance(rng, f["cls"], p_absent)
+        elif f["kind"] == "map":
+            out[f["n"]] = {k: gen_instance(rng, f["cls"], p_absent)
+                           for k in rng.sample(["k_a", "kB", "x", "A_b", "a"], rng.choice([0, 1, 1, 2]))}
         else:
             n = rng.choice([0, 1, 1, 2]) if f["kind"] == "arr" else rng.choice([1, 2])
             elems = []
@@ -319,6 +322,27 @@ def des_cases(rng, n):
     return out
 
 
+def mapfield_cases(rng, n):
+    """stream: classes holding structures as Map values (Map[String, Cls]), next to directly nested and
+    Array-nested ones, with the full mapper vocabulary — compared with the Lean model (class-directed
+    serializer serC, deserialization of every value as a call of its own with the caller's keep_undefined)"""
+    out = []
+    for _ in range(n):
+        cd = gen_class(rng, 0, 2, rng.choice([1, 1, 2]), kinds=("map", "map", "one", "arr"))
+        if not has_maps(cd):
+            continue
+        for _ in range(2):
+            out.append({"cls": cd, "kw": gen_instance(rng, cd, rng.choice([0.2, 0.5])),
+                        "camel": rng.random() < 0.3, "strict": rng.random() < 0.3,
+                        "explicit": gen_explicit(rng, cd) if rng.random() < 0.1 else None,
+                        "doc2": rng.random() < 0.3, "ku": rng.choice([None, None, None, True, False])})
+    return out
+
+
+def has_maps(cd):
+    return any(f["kind"] == "map" or (f["kind"] != "int" and has_maps(f["cls"])) for f in all_fields(cd))
+
+
 def des_differs(cd):
     """some class of the tree defines a _deserialization_mapper that is not a copy of its serialization mapper"""
     return any(lv.get("des") is not None and lv["des"] != lv["mapper"] for lv in cd["levels"]) or any(
@@ -411,7 +435,7 @@ def gen_cases(rng, tier, n):
                     case["entry"] = "function"
                 cases.append(case)
     return (cases + history_cases(rng, max(20, n // 25)) + closed_cases(rng, max(40, n // 8)) + fixed_cases()
-            + map_cases(rng, max(40, n // 10)) + ku_cases(rng, max(30, n // 16)) + des_cases(rng, max(40, n // 12)) + mi_cases(rng, max(60, n // 8)))
+            + map_cases(rng, max(40, n // 10)) + mapfield_cases(rng, max(60, n // 10)) + ku_cases(rng, max(30, n // 16)) + des_cases(rng, max(40, n // 12)) + mi_cases(rng, max(60, n // 8)))
 
 
 def _flat(name, fields, mapper, opt=()):
@@ -497,7 +521,8 @@ def build_class(cd, registry):
                 ns[f["n"]] = Integer
             else:
                 sub = build_class(f["cls"], registry)
-                ns[f["n"]] = sub if f["kind"] == "one" else (Array[sub] if f["kind"] == "arr" else Set[sub])
+                ns[f["n"]] = (sub if f["kind"] == "one" else Array[sub] if f["kind"] == "arr"
+                              else Map[String, sub] if f["kind"] == "map" else Set[sub])
         ns["_required"] = [f["n"] for f in lv["fields"] if not f["opt"]]
         if lv.get("addl"):
             ns["_additional_properties" if lv["addl"] == "new" else "_additionalProperties"] = False
@@ -522,6 +547,8 @@ def make_instance(cd, kw, registry):
             args[f["n"]] = v
         elif f["kind"] == "one":
             args[f["n"]] = make_instance(f["cls"], v, registry)
+        elif f["kind"] == "map":
+            args[f["n"]] = {k: make_instance(f["cls"], e, registry) for k, e in v.items()}
         elif f["kind"] == "arr":
             args[f["n"]] = [make_instance(f["cls"], e, registry) for e in v]
         else:
@@ -544,6 +571,8 @@ def dump_inst(x, cd, canonical):
             return v
         if f["kind"] == "one":
             return dump_inst(v, f["cls"], canonical)
+        if f["kind"] == "map":
+            return {"o": [[k, dump_inst(e, f["cls"], canonical)] for k, e in v.items()]}
         return [dump_inst(e, f["cls"], canonical) for e in v]
 
     if canonical:
@@ -577,7 +606,7 @@ def find_extras(x, cd, path=""):
         f = by_name[k]
         if v is None or f["kind"] == "int":
             continue
-        for i, e in enumerate([v] if f["kind"] == "one" else list(v)):
+        for i, e in enumerate([v] if f["kind"] == "one" else list(v.values()) if f["kind"] == "map" else list(v)):
             out += find_extras(e, f["cls"], f"{path}{k}.")
     return out
 
@@ -595,7 +624,7 @@ def model_extras(tree, cd, path=""):
         f = by_name[k]
         if v is None or f["kind"] == "int":
             continue
-        for e in ([v] if f["kind"] == "one" else list(v)):
+        for e in ([v] if f["kind"] == "one" else [p[1] for p in v["o"]] if f["kind"] == "map" else list(v)):
             out += model_extras(e, f["cls"], f"{path}{k}.")
     return out
 
@@ -634,6 +663,8 @@ def canon_inst(tree, cd):
             out[f["n"]] = v
         elif f["kind"] == "one":
             out[f["n"]] = canon_inst(v, f["cls"])
+        elif f["kind"] == "map":
+            out[f["n"]] = {k: canon_inst(e, f["cls"]) for k, e in v.items()}
         else:
             elems = [canon_inst(e, f["cls"]) for e in v]
             if f["kind"] == "set":
@@ -783,7 +814,7 @@ def cls_to_wire(cd):
     for f in all_fields(cd):
         w = {"n": f["n"], "opt": f["opt"]}
         if f["kind"] != "int":
-            w["shape"] = "one" if f["kind"] == "one" else "many"
+            w["shape"] = "one" if f["kind"] == "one" else "map" if f["kind"] == "map" else "many"
             w["cls"] = cls_to_wire(f["cls"])
         fields.append(w)
     names = level_names(cd)
@@ -969,6 +1000,8 @@ def correspondence(cd, impl, model):
     # the cache invariant (CacheOK): an entry the real code filed under a key the model files too must hold the
     # model's aggregate for that key — a wrong value is handed to every later call with that key.  WHICH keys
     # get filed is the code's business (a different caching strategy is not a violation): only tagged.
+    if model.get("serCisSer") is False:
+        return "class-directed serializer differs from ser on an instance without Map-valued fields: theorem serC_eq_ser contradicted"
     if "cache_new" in impl and "cacheNew" in model:
         mine = {(e[0], e[1], e[2]): e[3] for e in model["cacheNew"]}
         for e in json.loads(impl["cache_new"]):
